@@ -671,7 +671,7 @@ def _r3(ctx, oa):
                     # only 0 / +1 updates
                     rv = s['rv']
                     okd = (rv['r'] == 'use' and rv['a'].get('k') == 'const' and const_value(rv['a']) == 0) or \
-                          (rv['r'] == 'use' and rv['a'].get('k') == 'move')
+                          (rv['r'] == 'use' and rv['a'].get('k') == 'move') or _is_incr(rv, l)
                     if okd:
                         counter = l
                         continue
@@ -745,13 +745,23 @@ def _r3(ctx, oa):
                     inc_blocks = cfg.reachable_from([tt], avoid={ft}) & region
                     rst = [dd for dd in defs.of(counter) if dd[0] in (cfg.reachable_from([ft], avoid={tt}) & region)
                            and dd[3]['r'] == 'use' and dd[3]['a'].get('k') == 'const' and const_value(dd[3]['a']) == 0]
-                    inc = [dd for dd in defs.of(counter) if dd[0] in inc_blocks and dd[3]['r'] == 'use' and dd[3]['a'].get('k') == 'move']
+                    inc = [dd for dd in defs.of(counter) if dd[0] in inc_blocks and
+                           ((dd[3]['r'] == 'use' and dd[3]['a'].get('k') == 'move') or _is_incr(dd[3], counter))]
                     inc_ok = inc_ok and bool(rst) and bool(inc)
         rep.check(inc_ok, 'R3', 'convergence-counter-semantics', where(b, sbi),
                   'counter += 1 iff score_current - score_start < threshold, reset to 0 otherwise',
                   'the convergence counter is not "consecutive inner loops that improved by less than the threshold"')
     rep.check(okc, 'R3', 'exit-after-more-than-five-consecutive-loops', where(b, sbi), why, why)
     rep.sample('convergence region: %d blocks, counter _%s, exits when counter > 5, effect-free otherwise' % (len(region), counter))
+
+
+def _is_incr(rv, l):
+    """x = x + 1 (release builds: no overflow tuple)."""
+    if rv.get('r') != 'binop' or rv.get('op') != 'Add':
+        return False
+    a, b = rv['a'], rv['b']
+    return (a.get('l') == l and not a.get('p') and b.get('k') == 'const' and const_value(b) == 1) or \
+        (b.get('l') == l and not b.get('p') and a.get('k') == 'const' and const_value(a) == 1)
 
 
 # ------------------------------------------------------------------------------------------------ R4
